@@ -1,0 +1,33 @@
+//go:build verif
+
+package merkle
+
+import "github.com/polynetwork/poly/common"
+
+// Exported wrappers around unexported helpers, compiled only with the build tag `verif`
+// (used by the verification harness in /verif; no behaviour change without the tag).
+
+func VerifCountBit(n uint32) uint { return countBit(n) }
+
+func VerifHighBit(n uint32) uint { return highBit(n) }
+
+func VerifLowBit(n uint32) uint { return lowBit(n) }
+
+func VerifGetSubTreeSize(n uint32) []uint32 { return getSubTreeSize(n) }
+
+func VerifGetSubTreePos(n uint32) []uint32 { return getSubTreePos(n) }
+
+func VerifStoredHashNum(n uint32) int64 { return getStoredHashNum(n) }
+
+func VerifAuditPathLength(index, treeSize uint32) int { return audit_path_length(index, treeSize) }
+
+func VerifDepth(n int) int { return depth(n) }
+
+// VerifMerkleRoot is merkleRoot(n): the root of D[0:n] recomputed from the hash store.
+func (self *CompactMerkleTree) VerifMerkleRoot(n uint32) common.Uint256 { return self.merkleRoot(n) }
+
+// VerifHashStore returns the store the tree writes to (nil interface when persistence is disabled).
+func (self *CompactMerkleTree) VerifHashStore() HashStore { return self.hashStore }
+
+// VerifHashFold is TreeHasher._hash_fold.
+func VerifHashFold(hashes []common.Uint256) common.Uint256 { return TreeHasher{}._hash_fold(hashes) }
